@@ -15,6 +15,13 @@ def selftest():
         print("TOOL-ERROR: BigNat self-test failed")
         return 2
     print("selftest ok: %d vectors" % res["events"])
+    ct = os.path.join(work, "certs.ndjson")
+    core.run_driver(["selftest", "--seed", 1], ct)
+    res = core.validate_trace("selftest/CertsSelfTest.tla", "CertsSelfTest.cfg", ct, shards=8)
+    if res["rejects"]:
+        print("TOOL-ERROR: certificate self-test failed", [(r["tag"], r["i"]) for r in res["rejects"]])
+        return 2
+    print("selftest ok: %d certificate chains" % res["events"])
     return 0
 
 
